@@ -189,6 +189,9 @@ impl BlteBuilder {
             super::error::BlteError::CompressionError("No encryption config set".to_string())
         })?;
 
+        // The chunk table records the size of the decoded content, not of the
+        // inner payload (mode byte + compressed data) that gets encrypted
+        let decompressed_size = data.len();
         let inner = self.build_inner_payload(data)?;
 
         // Encrypt the payload (mode byte + compressed/raw data)
@@ -198,7 +201,7 @@ impl BlteBuilder {
         Ok(ChunkData::from_compressed(
             CompressionMode::Encrypted,
             encrypted_data,
-            Some(inner.len()),
+            Some(decompressed_size),
         ))
     }
 
@@ -210,6 +213,9 @@ impl BlteBuilder {
         key: [u8; 16],
         block_index: usize,
     ) -> BlteResult<ChunkData> {
+        // The chunk table records the size of the decoded content, not of the
+        // inner payload (mode byte + compressed data) that gets encrypted
+        let decompressed_size = data.len();
         let inner = self.build_inner_payload(data)?;
 
         // Encrypt the payload (mode byte + compressed/raw data)
@@ -218,7 +224,7 @@ impl BlteBuilder {
         Ok(ChunkData::from_compressed(
             CompressionMode::Encrypted,
             encrypted_data,
-            Some(inner.len()),
+            Some(decompressed_size),
         ))
     }
 
